@@ -765,9 +765,9 @@ static void piek_cases(Rng & rng, const F::Factors & sp) {
 }
 
 static const int kRandomQuick = 150, kRandomThorough = 3000;
-static const int kAlgQuick = 400, kAlgThorough = 30000;
-static const int kDdnQuick = 100, kDdnThorough = 6000;
-static const int kEqQuick = 100, kEqThorough = 3000;
+static const int kAlgQuick = 400, kAlgThorough = 60000;
+static const int kDdnQuick = 100, kDdnThorough = 12000;
+static const int kEqQuick = 100, kEqThorough = 6000;
 static long g_nSpaces = 0, g_nRandom = 0, g_nAlg = 0, g_nDdn = 0, g_nEq = 0;
 
 long verif::verif_ncases(const std::string & tier) {
